@@ -48,7 +48,11 @@ BUDGET = {"quick": (120000, 64 << 20), "thorough": (1500000, 256 << 20)}
 
 def run_budgeted(R, ops, meta=None, group_starts=None, **kw):
     """cost every op with the model first; ops above the tier's budget are not sent to the implementation"""
-    ml0 = R.run_model([("C" + o) if o.startswith("C ") else "P" for o in ops])
+    def costop(o):
+        if o.startswith("C "): return "C" + o
+        if o.startswith("RA "): t = o.split(" "); return "CC ra %s %s %s" % (t[1], t[2], t[3])
+        return "P"
+    ml0 = R.run_model([costop(o) for o in ops])
     cmax, mmax = BUDGET[R.tier]
     keep = [i for i, l in enumerate(ml0) if int(fields(l).get("cost", 0)) <= cmax and int(fields(l).get("mem", 0)) <= mmax]
     cut = len(ops) - len(keep)
